@@ -10,7 +10,12 @@ import ast
 from ..core import Rule
 from ..model import AnalysisError, dotted, unparse, short, ancestors
 from ..cfg import cfg_of, calls_in_order
-from .c08 import raising_ifs
+from .. import straight as S
+from ..facts import facts_of
+from ..contract import entry, refusals, unpermitted, isinstance_of, describe_alt
+from ..pathsum import summarize
+from ..terms import fn_terms
+from ..model import inline_locals
 
 EXPLANATION = ("(1) Index provenance: every argument reaching _get_bytes_by_index / _write_bytes_to_file (hence divmod(index, "
                "per_file) and the chunk file name) is an element of range(*slice.indices(len(self))) or an integer that passed "
@@ -32,29 +37,53 @@ def _calls(fi, name):
     return [c for c in ast.walk(fi.node) if isinstance(c, ast.Call) and (dotted(c.func) or "") == name]
 
 
-def _int_path_facts(fi, key_param):
-    """For the int path of __getitem__/__setitem__: the operator.index() variable, the bounds guard, normalised names."""
-    src = fi.node
-    idx_var = None
-    for st in ast.walk(src):
-        if isinstance(st, ast.Assign) and isinstance(st.value, ast.Call) and dotted(st.value.func) == "operator.index" and isinstance(st.targets[0], ast.Name):
-            idx_var = st.targets[0].id
-    guard = None
-    for st, exc in raising_ifs(fi):
-        t = unparse(st.test)
-        if exc == "IndexError" and idx_var and ("%s >= len(self)" % idx_var in t) and ("%s < -len(self)" % idx_var in t):
-            guard = st
-    return idx_var, guard
+LEN_TERMS = [("call", "len", (("param", "self"),), ()), ("attr", ("param", "self"), "__array_len")]
+LEN_TEXTS = ["len(self)", "self.__array_len"]
 
 
-def _normalised(expr, idx_var, norm_names):
-    """expr is idx % len(self), a name bound to it, or idx after `if idx < 0: idx += len(self)`."""
-    t = unparse(expr)
-    if t == "%s %% len(self)" % idx_var:
+def _slice_provenance(t):
+    """t is the loop variable of range(*<slice>.indices(len(self)))"""
+    if t[0] != "rangevar":
+        return False
+    a = t[1]
+
+    def ind(x):
+        return x[0] == "mcall" and x[2] == "indices" and len(x[3]) == 1 and x[3][0] in LEN_TERMS and x[1][0] == "param"
+    if len(a) == 3 and all(x[0] == "proj" and x[2] == i and ind(x[1]) for i, x in enumerate(a)) and len({x[1] for x in a}) == 1:
         return True
-    if isinstance(expr, ast.Name) and expr.id in norm_names:
+    if len(a) == 1 and a[0][0] == "star" and ind(a[0][1]):
         return True
     return False
+
+
+def _int_provenance(fi, F, call, nid):
+    """The argument is <idx> % len(self) reached only with -len <= idx < len established, or <idx> after the in-place
+    normalisation `if idx < 0: idx += len(self)` entered with the same bounds.  -> (ok, description)"""
+    arg = call.args[0] if call.args else None
+    if arg is None:
+        return False, "no argument"
+    e = inline_locals(fi.node, arg)
+    if isinstance(e, ast.BinOp) and isinstance(e.op, ast.Mod) and unparse(e.right) in LEN_TEXTS:
+        L, N = unparse(e.left), unparse(e.right)
+        for n_txt in LEN_TEXTS:
+            if F.one_of(nid, [(("<", L, n_txt), True)]) and F.one_of(nid, [(("<", L, "-" + n_txt), False)]):
+                return True, "guarded and normalised with % len(self)"
+        return False, "%s %% %s is computed without -len <= %s < len being established" % (L, N, L)
+    if isinstance(arg, ast.Name):
+        L = arg.id
+        for st in ast.walk(fi.node):
+            if isinstance(st, ast.If) and not st.orelse and len(st.body) == 1 and isinstance(st.body[0], ast.AugAssign) and isinstance(st.body[0].op, ast.Add) and \
+                    unparse(st.body[0].target) == L and unparse(st.body[0].value) in LEN_TEXTS and isinstance(st.test, ast.Compare) and unparse(st.test) == "%s < 0" % L:
+                tn = F.cfg.nodes_of(st)
+                if not tn:
+                    continue
+                n_txt = unparse(st.body[0].value)
+                bounded = any(F.one_of(tn[0], [(("<", L, x), True)]) and F.one_of(tn[0], [(("<", L, "-" + x), False)]) for x in LEN_TEXTS)
+                dominated = not F.cfg.can_reach(F.cfg.entry, nid, avoid=set(tn))
+                later = [m.id for m in F.cfg.nodes if m.id != F.cfg.nodes_of(st.body[0])[0] and L in F._killed(m) and F.cfg.can_reach(tn[0], m.id) and F.cfg.can_reach(m.id, nid)]
+                if bounded and dominated and not later:
+                    return True, "guarded and normalised in place (if idx < 0: idx += %s)" % n_txt
+    return False, "%s is neither an element of range(*slice.indices(len(self))) nor a guarded index normalised with %% len(self)" % unparse(arg)
 
 
 def check(repo):
@@ -68,127 +97,195 @@ def check(repo):
     get, set_ = ci.methods.get("__getitem__"), ci.methods.get("__setitem__")
     if get is None or set_ is None:
         raise AnalysisError("%s.__getitem__/__setitem__ vanished" % CORE)
+    _check_provenance(repo, r1, ci)
+    _check_mapping(repo, r1, r2, ci)
+    _check_atomicity(repo, r2, ci, set_)
+    _check_marker(repo, r3)
+    _check_files(repo, r4, ci)
+    _check_delete(repo, r5, ci)
+    return rules
 
-    # ---------------------------------------------------------------- R19.1
-    who = {"self._get_bytes_by_index": [], "self._write_bytes_to_file": []}
+
+# ---------------------------------------------------------------------------------------------------------------- R19.1
+def _check_provenance(repo, r1, ci):
+    n_slice = n_int = 0
     for fi in ci.methods.values():
-        for nm in who:
+        ft = None
+        F = None
+        for nm in ("self._get_bytes_by_index", "self._write_bytes_to_file"):
             for c in _calls(fi, nm):
-                who[nm].append((fi, c))
-    r1.require(len(who["self._get_bytes_by_index"]) >= 2 and len(who["self._write_bytes_to_file"]) >= 2, get, "mapping call sites",
-               "expected slice and int call sites of the index mapping in __getitem__/__setitem__")
-    facts = {}
-    for fi, key in ((get, get.params[1]), (set_, set_.params[1])):
-        idx_var, guard = _int_path_facts(fi, key)
-        norm_names = set()
-        for st in ast.walk(fi.node):
-            if isinstance(st, ast.Assign) and isinstance(st.targets[0], ast.Name) and idx_var and unparse(st.value) == "%s %% len(self)" % idx_var:
-                norm_names.add(st.targets[0].id)
-        # in-place normalisation: if idx < 0: idx += len(self)
-        for st in ast.walk(fi.node):
-            if isinstance(st, ast.If) and idx_var and unparse(st.test) == "%s < 0" % idx_var and any(
-                    isinstance(x, ast.AugAssign) and unparse(x) == "%s += len(self)" % idx_var for x in st.body):
-                norm_names.add(idx_var)
-        facts[fi.name] = (idx_var, guard, norm_names)
-        r1.require(guard is not None, fi, "bounds guard", "%s.%s lost its bounds guard (index >= len or index < -len -> IndexError)" % (CORE, fi.name))
-    for nm, sites in who.items():
-        for fi, c in sites:
-            if fi.name not in facts:
-                r1.fail_fn(fi, c, "mapping called from %s" % fi.name, "%s calls the index mapping directly" % fi.qual)
-                continue
-            idx_var, guard, norm_names = facts[fi.name]
-            arg = c.args[0] if c.args else None
-            in_slice = any(isinstance(a, ast.For) and isinstance(a.iter, ast.Call) and dotted(a.iter.func) == "range" and
-                           [unparse(x) for x in a.iter.args] == ["start", "stop", "stride"] and isinstance(arg, ast.Name) and arg.id == a.target.id for a in ancestors(c))
-            desc = {"function": fi.qual, "call": short(c), "line": c.lineno}
-            if in_slice:
-                # start, stop, stride come from <slice>.indices(len(self))
-                ok = any(isinstance(st, ast.Assign) and unparse(st.targets[0]).strip("()") == "start, stop, stride" and isinstance(st.value, ast.Call) and
-                         isinstance(st.value.func, ast.Attribute) and st.value.func.attr == "indices" and [unparse(x) for x in st.value.args] == ["len(self)"]
-                         for st in ast.walk(fi.node))
-                r1.require(ok, fi, "slice indices clamped to len(self)", "%s: the slice loop bounds do not come from <slice>.indices(len(self))" % fi.qual, c)
-                desc["provenance"] = "range(*slice.indices(len(self)))"
-                r1.instance(desc)
-                continue
-            if arg is not None and idx_var and _normalised(arg, idx_var, norm_names):
-                # and the guard dominates the call
-                cfg = cfg_of(fi.node)
-                cn = cfg.node_of_expr(c)
-                gn = cfg.nodes_of(guard)[0] if guard is not None else None
-                okd = gn is not None and all(cfg.dominates(gn, x) for x in cn)
-                r1.require(okd, fi, "guard dominates the mapping", "%s: the bounds guard does not precede %s" % (fi.qual, short(c)), c)
-                desc["provenance"] = "guarded and normalised with % len(self)"
-                r1.instance(desc)
-            else:
-                r1.fail_fn(fi, c, "raw index reaches the file mapping",
-                           "%s passes %s to %s: a negative index is not normalised, so divmod(index, per_file) selects the wrong slot or a file named <path>_-1 "
-                           "(visible when the length is not a multiple of the chunk size)" % (fi.qual, unparse(arg) if arg is not None else None, nm.split(".")[-1]), witness=desc)
-    # the mapping itself
+                if ft is None:
+                    ft, F = fn_terms(repo, fi), facts_of(fi)
+                nids = [i for i in ft.cfg.node_of_expr(c) if i in F.ins] or ft.cfg.node_of_expr(c)
+                if not nids or not c.args:
+                    r1.fail_fn(fi, c, "mapping call without index", "%s calls %s without an index" % (fi.qual, nm))
+                    continue
+                nid = nids[0]
+                env = None
+                try:
+                    from .c02 import _comp_env
+                    env = _comp_env(ft, c, nid)
+                except Exception:
+                    env = None
+                t = ft.term(c.args[0], nid, env) if env else ft.term(c.args[0], nid)
+                desc = {"function": fi.qual, "call": short(c), "line": c.lineno}
+                if _slice_provenance(t):
+                    desc["provenance"] = "range(*slice.indices(len(self)))"
+                    n_slice += 1
+                    r1.ok(desc)
+                    continue
+                ok, why = _int_provenance(fi, F, c, nid)
+                if ok:
+                    desc["provenance"] = why
+                    n_int += 1
+                    r1.ok(desc)
+                else:
+                    r1.fail_fn(fi, c, "raw index reaches the file mapping",
+                               "%s passes %s to %s: %s; an index outside [0, len) makes divmod(index, per_file) select the wrong slot or a file named <path>_-1 "
+                               "(visible when the length is not a multiple of the chunk size)" % (fi.qual, unparse(c.args[0]), nm.split(".")[-1], why), witness=desc)
+    r1.require(n_slice >= 2 and n_int >= 2, ci.methods["__getitem__"], "mapping call sites",
+               "expected slice and int call sites of the index mapping in __getitem__/__setitem__ (found %d slice, %d int)" % (n_slice, n_int))
+
+
+def _check_mapping(repo, r1, r2, ci):
+    """index -> (file, offset) by divmod(index, items_per_file); seek to offset * item_size; short reads right-filled,
+    items left-padded to item_size; an oversized item is refused before anything is written."""
+    PER = ("attr", ("var", "self"), "__item_num_in_one_file")
+    ISZ = ("attr", ("var", "self"), "__item_size")
+    Z = ("const", b"\x00")
     for nm in ("_get_bytes_by_index", "_write_bytes_to_file"):
         f = ci.methods.get(nm)
-        src = unparse(f.node)
-        r1.require("file_id, offset = divmod(index, self.__item_num_in_one_file)" in src.replace("(file_id, offset)", "file_id, offset") and "file = self._get_file_by_id(file_id)" in src and
-                   "offset_bytes = offset * self.__item_size" in src and "file.seek(offset_bytes, 0)" in src, f, "%s mapping" % nm,
-                   "%s no longer maps index -> (file, offset) by divmod(index, items_per_file) and seeks to offset * item_size" % nm)
-    gb = ci.methods["_get_bytes_by_index"]
-    r1.require("ret = file.read(self.__item_size)" in unparse(gb.node) and "ret += b'\\x00' * (self.__item_size - len(ret))" in unparse(gb.node), gb, "short reads zero-filled",
-               "_get_bytes_by_index no longer zero-fills a short read")
+        if f is None:
+            raise AnalysisError("%s.%s vanished" % (CORE, nm))
+        idx = ("var", f.params[1])
+        DM = ("call", ("fn", "divmod"), (idx, PER), ())
+        FILE = ("call", ("fn", "self._get_file_by_id"), (("proj", DM, 0),), ())
+        FILE2 = ("call", ("fn", "self._get_file_by_id"), (("op", "FloorDiv", idx, PER),), ())
+        offs = [("op", "Mult", ("proj", DM, 1), ISZ), ("op", "Mult", ISZ, ("proj", DM, 1)), ("op", "Mult", ("op", "Mod", idx, PER), ISZ), ("op", "Mult", ISZ, ("op", "Mod", idx, PER))]
+        paths = [ps for ps in summarize(f) if ps.exc is None]
+        okm = bool(paths)
+        for ps in paths:
+            seeks = [c for _n, c, _f in ps.calls if c[0] == "call" and c[1][0] == "method" and c[1][2] == "seek"]
+            if not seeks or not all(c[1][1] in (FILE, FILE2) and c[2] and c[2][0] in offs and (len(c[2]) == 1 or c[2][1] == ("const", 0)) for c in seeks):
+                okm = False
+            if nm == "_get_bytes_by_index":
+                R_ = [("call", ("method", fl, "read"), (ISZ,), ()) for fl in (FILE, FILE2)]
+                want = [("cat", (r_, m)) for r_ in R_ for m in [("op", "Mult", Z, ("op", "Sub", ISZ, ("call", ("fn", "len"), (r_,), ()))), ("op", "Mult", ("op", "Sub", ISZ, ("call", ("fn", "len"), (r_,), ())), Z)]]
+                want += [("call", ("method", r_, "ljust"), (ISZ, Z), ()) for r_ in R_]
+                if ps.ret not in want:
+                    okm = False
+                    r1.fail_fn(f, f.node, "short reads zero-filled", "_get_bytes_by_index returns %s; expected file.read(item_size) right-filled with zero bytes to item_size" % (S.show(ps.ret)[:140] if ps.ret else None))
+            else:
+                c0 = ("var", f.params[2])
+                padded = [("cat", (m, c0)) for m in [("op", "Mult", Z, ("op", "Sub", ISZ, ("call", ("fn", "len"), (c0,), ()))), ("op", "Mult", ("op", "Sub", ISZ, ("call", ("fn", "len"), (c0,), ())), Z)]]
+                padded += [("call", ("method", c0, "rjust"), (ISZ, Z), ())]
+                writes = [c for _n, c, _f in ps.calls if c[0] == "call" and c[1][0] == "method" and c[1][2] == "write"]
+                if not writes or not all(c[1][1] in (FILE, FILE2) and c[2] and c[2][0] in padded for c in writes):
+                    okm = False
+                    r1.fail_fn(f, f.node, "items left-padded to item_size", "_write_bytes_to_file writes %s; expected the item left-padded with zero bytes to item_size" % (
+                        [S.show(c[2][0])[:120] for c in writes if c[2]]))
+        r1.require(okm, f, "%s mapping" % nm, "%s no longer maps index -> (file, offset) by divmod(index, items_per_file) and seeks to offset * item_size" % nm)
     wb = ci.methods["_write_bytes_to_file"]
-    srcw = unparse(wb.node)
-    r1.require("content = b'\\x00' * (self.__item_size - len(content)) + content" in srcw and "file.write(content)" in srcw, wb, "items left-padded to item_size",
-               "_write_bytes_to_file no longer left-pads the item to item_size before writing")
+    Fw = facts_of(wb)
+    cp = entry(wb.params[2])
+    big = lambda truth: (lambda k, t: k == ("<", "self.__item_size", "len(%s)" % cp) and t == truth)  # noqa: E731
+    if r2.require(bool(refusals(Fw, big(True))), wb, "oversized item refused", "_write_bytes_to_file no longer refuses an item longer than item_size"):
+        io = [n.id for n in Fw.cfg.nodes if n.id in Fw.ins and n.ast is not None and n.stmt is not None and any(
+            isinstance(c.func, ast.Attribute) and c.func.attr in ("write", "seek", "truncate") for c in calls_in_order(n.stmt if n.kind != "test" else n.ast))]
+        r2.require(bool(io) and not unpermitted(Fw, io, [big(False)]), wb, "size check precedes seek/write", "_write_bytes_to_file writes before checking the size")
 
-    # ---------------------------------------------------------------- R19.2
-    g = [st for st, exc in raising_ifs(wb) if exc == "ValueError" and "len(content) > self.__item_size" in unparse(st.test)]
-    if r2.require(bool(g), wb, "oversized item refused", "_write_bytes_to_file no longer refuses an item longer than item_size"):
-        cfg = cfg_of(wb.node)
-        writes = [n.id for n in cfg.nodes if n.ast is not None and n.stmt is not None and any(
-            isinstance(c.func, ast.Attribute) and c.func.attr in ("write", "seek") for c in calls_in_order(n.stmt if n.kind != "test" else n.ast))]
-        r2.require(all(cfg.dominates(cfg.nodes_of(g[0])[0], w) for w in writes), wb, "size check precedes seek/write", "_write_bytes_to_file writes before checking the size")
-    # slice branch of __setitem__
-    tries = [st for st in ast.walk(set_.node) if isinstance(st, ast.Try)]
+
+# ---------------------------------------------------------------------------------------------------------------- R19.2
+def _check_atomicity(repo, r2, ci, set_):
+    key, val = set_.params[1], set_.params[2]
+    cfg = cfg_of(set_.node)
+    tries = [st for st in ast.walk(set_.node) if isinstance(st, ast.Try) and any(
+        isinstance(c, ast.Call) and dotted(c.func) == "self._write_bytes_to_file" for b in st.body for c in ast.walk(b))]
     if r2.require(len(tries) == 1, set_, "slice write inside try", "__setitem__ (slice) is no longer protected by a try block"):
         tr = tries[0]
-        loop = next((x for x in tr.body if isinstance(x, ast.For)), None)
-        body_src = [unparse(x) for x in (loop.body if loop else [])]
-        ok = loop is not None and len(body_src) >= 2 and body_src[0] == "old_items.append(self[index])" and "self._write_bytes_to_file(index, next(value_iter))" in body_src[1]
-        r2.require(ok, set_, "old item recorded before it is overwritten", "__setitem__ (slice): loop body is %s; each old item must be recorded before the write of the same index" % body_src)
+        # (a) inside the try body: the old item is recorded before the write of the same index
+        olds = None
+        okrec = False
+        for lp in [x for b in tr.body for x in ast.walk(b) if isinstance(x, (ast.For, ast.While))]:
+            rec = [c for c in ast.walk(lp) if isinstance(c, ast.Call) and isinstance(c.func, ast.Attribute) and c.func.attr == "append" and len(c.args) == 1 and
+                   isinstance(c.args[0], ast.Subscript) and unparse(c.args[0].value) == "self"]
+            wr = [c for c in ast.walk(lp) if isinstance(c, ast.Call) and dotted(c.func) == "self._write_bytes_to_file"]
+            if rec and wr:
+                rn, wn = cfg.node_of_expr(rec[0]), cfg.node_of_expr(wr[0])
+                same_idx = wr[0].args and unparse(rec[0].args[0].slice) == unparse(wr[0].args[0])
+                if rn and wn and same_idx and all(not cfg.can_reach(cfg.nodes_of(lp)[0], w, avoid=set(rn)) for w in wn if cfg.nodes_of(lp)):
+                    okrec = True
+                    olds = unparse(rec[0].func.value)
+        # (a') the items written are the caller's items as given: a conversion (bytes(x), str(x).encode()) would turn a value of the
+        #      wrong type into zero bytes instead of letting the write fail and roll back
+        ftS = fn_terms(repo, set_)
+        for c in [c for b in tr.body for c in ast.walk(b) if isinstance(c, ast.Call) and dotted(c.func) == "self._write_bytes_to_file" and len(c.args) >= 2]:
+            nidc = ftS.cfg.node_of_expr(c)
+            t = ftS.term(c.args[1], nidc[0]) if nidc else None
+            from ..terms import walk as twalk
+            conv = [x[1] for x in twalk(t) if isinstance(x, tuple) and x and x[0] == "call" and x[1] not in ("next", "iter")] if t is not None else ["?"]
+            from_value = t is not None and any(x == ("param", val) for x in twalk(t))
+            r2.require(from_value and not conv, set_, "slice items written as given",
+                       "__setitem__ (slice) writes %s: the caller's items must reach the writer unconverted, so that an item of the wrong type fails (and rolls the slice back) "
+                       "as it does for an integer index" % unparse(c.args[1]), c)
+        r2.require(okrec, set_, "old item recorded before it is overwritten",
+                   "__setitem__ (slice): each old item must be recorded (self[index] appended to the undo list) before the write of the same index")
         hs = tr.handlers
-        stop = [h for h in hs if h.type is not None and unparse(h.type) == "StopIteration"]
-        r2.require(bool(stop) and all(isinstance(x, ast.Pass) for x in stop[0].body) and hs.index(stop[0]) == 0, set_, "StopIteration is not a failure",
-                   "__setitem__ (slice): running out of values must end the assignment quietly (first handler: except StopIteration: pass)")
         catch = [h for h in hs if h.type is None or unparse(h.type) in ("Exception", "BaseException")]
-        okc = bool(catch) and [unparse(x) for x in catch[0].body] == ["self[%s] = old_items" % set_.params[1], "raise"]
+        okc = False
+        if catch and olds:
+            h = catch[0]
+            restores = [st for st in h.body if isinstance(st, ast.Assign) and len(st.targets) == 1 and isinstance(st.targets[0], ast.Subscript) and
+                        unparse(st.targets[0].value) == "self" and unparse(st.targets[0].slice) == key and unparse(st.value) == olds]
+            reraise = bool(h.body) and isinstance(h.body[-1], ast.Raise) and (h.body[-1].exc is None or (h.name and unparse(h.body[-1].exc) == h.name))
+            okc = bool(restores) and reraise
         r2.require(okc, set_, "catch-all restores every recorded item and re-raises",
-                   "__setitem__ (slice): the failure handler is %s; it must restore self[key] = old_items and re-raise" % ([unparse(x) for x in catch[0].body] if catch else [unparse(h.type) if h.type else None for h in hs]))
-    # int path: type check and bounds before the write
-    idx_var, guard, norm_names = facts["__setitem__"]
-    tg = [st for st, exc in raising_ifs(set_) if exc == "TypeError" and "isinstance(%s, typing.ByteString)" % set_.params[2] in unparse(st.test)]
-    if r2.require(bool(tg), set_, "non-bytes item refused", "__setitem__ (int) no longer refuses a non-bytes value with TypeError"):
-        cfg = cfg_of(set_.node)
-        int_writes = [x for fi_, c in who["self._write_bytes_to_file"] if fi_ is set_ and not any(isinstance(a, ast.Try) for a in ancestors(c)) for x in cfg.node_of_expr(c)]
-        r2.require(bool(int_writes) and all(cfg.dominates(cfg.nodes_of(tg[0])[0], w) for w in int_writes), set_, "type check precedes the write", "__setitem__ (int) writes before checking the value's type")
+                   "__setitem__ (slice): the failure handler is %s; it must restore self[key] = <all recorded items> and re-raise" % (
+                       [unparse(x) for x in catch[0].body] if catch else [unparse(h.type) if h.type else None for h in hs]))
+        uses_next = any(isinstance(c, ast.Call) and dotted(c.func) == "next" for b in tr.body for c in ast.walk(b))
+        if uses_next:
+            stop = [h for h in hs if h.type is not None and "StopIteration" in unparse(h.type)]
+            quiet = bool(stop) and not any(isinstance(x, (ast.Raise, ast.Assign)) for b in stop[0].body for x in ast.walk(b)) and (not catch or hs.index(stop[0]) < hs.index(catch[0]))
+            r2.require(quiet, set_, "StopIteration is not a failure",
+                       "__setitem__ (slice): running out of values must end the assignment quietly (an `except StopIteration` before the catch-all, without restore / re-raise)")
+    # int path: the value is a byte string before it is written
+    F = facts_of(set_)
+    isb = isinstance_of(entry(val), True)
+    int_writes = []
+    for c in _calls(set_, "self._write_bytes_to_file"):
+        if not any(isinstance(a, ast.Try) for a in ancestors(c)):
+            int_writes += [i for i in cfg.node_of_expr(c) if i in F.ins]
+    if r2.require(bool(refusals(F, isinstance_of(entry(val), False), ("TypeError",))), set_, "non-bytes item refused", "__setitem__ (int) no longer refuses a non-bytes value with TypeError"):
+        r2.require(bool(int_writes) and not unpermitted(F, int_writes, [isb]), set_, "type check precedes the write", "__setitem__ (int) writes before checking the value's type")
 
-    # ---------------------------------------------------------------- R19.3 closed marker
+
+# ---------------------------------------------------------------------------------------------------------------- R19.3
+def _check_marker(repo, r3):
     wrap = repo.cls(PA, "SPFLBArray")
     marker = repo.cls(PA, "_ClosedFixedLengthBytesArray")
     bound = set()
-    for nm, v in marker.attrs.items():
-        if isinstance(v, ast.Name) and v.id == "closed":
-            bound.add(nm)
-        if isinstance(v, ast.Call) and dotted(v.func) == "_ClosedDescriptor":
-            bound.add(nm)
     closed_fn = marker.methods.get("closed")
-    r3.require(closed_fn is not None and any(isinstance(x, ast.Raise) for x in closed_fn.node.body), closed_fn or list(marker.methods.values())[0], "marker function raises",
-               "_ClosedFixedLengthBytesArray.closed no longer raises")
+    raising_fns = {n for n, f in marker.methods.items() if f.node.body and all(p.exc is not None for p in summarize(f)) and summarize(f)}
+    for st in marker.node.body:
+        if isinstance(st, ast.Assign):
+            v = st.value
+            if (isinstance(v, ast.Name) and v.id in raising_fns) or (isinstance(v, ast.Call) and dotted(v.func) == "_ClosedDescriptor"):
+                for t in st.targets:
+                    for x in ast.walk(t):
+                        if isinstance(x, ast.Name):
+                            bound.add(x.id)
+    for n in raising_fns:
+        if n.startswith("__") or n in ("close", "release"):
+            bound.add(n)
+    r3.require(bool(raising_fns), closed_fn or list(marker.methods.values())[0], "marker function raises", "_ClosedFixedLengthBytesArray has no raising function any more")
     desc_cls = repo.cls(PA, "_ClosedDescriptor")
     for m in ("__get__", "__set__"):
         f = desc_cls.methods.get(m)
-        r3.require(f is not None and any(isinstance(x, ast.Raise) for x in f.node.body), f or closed_fn, "descriptor %s raises" % m, "_ClosedDescriptor.%s no longer raises" % m)
+        ps = summarize(f) if f is not None else []
+        r3.require(f is not None and bool(ps) and all(p.exc is not None for p in ps), f or closed_fn, "descriptor %s raises" % m, "_ClosedDescriptor.%s no longer raises" % m)
     used = {}
     for fi in wrap.methods.values():
         for n in ast.walk(fi.node):
-            base = None
             if isinstance(n, ast.Attribute) and unparse(n.value) == "self.__underlying_array":
                 used.setdefault(n.attr, fi)
             if isinstance(n, ast.Subscript) and unparse(n.value) == "self.__underlying_array":
@@ -204,60 +301,166 @@ def check(repo):
         if f is None:
             r3.fail(PA, "SPFLBArray", 0, "%s missing" % nm, "SPFLBArray.%s vanished" % nm)
             continue
-        tr = next((st for st in f.node.body if isinstance(st, ast.Try)), None)
-        ok = tr is not None and tr.finalbody and "self.__underlying_array = _ClosedFixedLengthBytesArray()" in unparse(ast.Module(body=tr.finalbody, type_ignores=[]))
-        r3.require(ok, f, "%s installs the marker in a finally" % nm, "SPFLBArray.%s does not install the closed marker on every path" % nm)
-    # the public operations go through the guarded attribute (no cached copies)
+        cfg = cfg_of(f.node)
+        marks = set()
+        for n in cfg.nodes:
+            if n.kind == "stmt" and isinstance(n.stmt, ast.Assign) and any(unparse(t) == "self.__underlying_array" for t in n.stmt.targets):
+                v = n.stmt.value
+                if (isinstance(v, ast.Call) and dotted(v.func) == "_ClosedFixedLengthBytesArray") or (isinstance(v, ast.Constant) and v.value is None):
+                    marks.add(n.id)
+        ok = bool(marks) and not cfg.can_reach(cfg.entry, cfg.exit, avoid=marks) and not cfg.can_reach(cfg.entry, cfg.raise_exit, avoid=marks)
+        r3.require(ok, f, "%s installs the marker on every path" % nm, "SPFLBArray.%s does not install the closed marker on every path (normal and exceptional)" % nm)
     for nm in ("__getitem__", "__setitem__", "__len__", "__iter__"):
         f = wrap.methods.get(nm)
-        r3.require(f is not None and "self.__underlying_array" in unparse(f.node), f or list(wrap.methods.values())[0], "%s uses the guarded attribute" % nm,
-                   "SPFLBArray.%s does not go through self.__underlying_array" % nm)
+        r3.require(f is not None and any(isinstance(x, ast.Attribute) and unparse(x) == "self.__underlying_array" for x in ast.walk(f.node)), f or list(wrap.methods.values())[0],
+                   "%s uses the guarded attribute" % nm, "SPFLBArray.%s does not go through self.__underlying_array" % nm)
 
-    # ---------------------------------------------------------------- R19.4 files
-    gf = ci.methods.get("_get_file_by_id")
-    srcg = unparse(gf.node)
-    r4.require("file_path = self.__local_path + f'_{file_id}'" in srcg, gf, "chunk file name", "_get_file_by_id opens %s; expected <local_path>_<file_id>" % [l for l in srcg.splitlines() if "file_path =" in l])
-    r4.require("open(file_path, 'rb+')" in srcg and "except FileNotFoundError" in srcg and "open(file_path, 'wb+')" in srcg and "self.__opened_files[file_id] = file" in srcg, gf,
-               "chunk opened read/write, created on demand, cached", "_get_file_by_id no longer opens rb+ / creates wb+ / caches the handle")
-    init = ci.methods.get("__init__")
-    srci = unparse(init.node)
-    r4.require("if os.path.exists(self.__local_path + '_meta'):" in srci and "raise FileExistsError" in srci, init, "create refuses an existing array", "create mode no longer refuses an existing meta file")
-    r4.require("open(local_path + '_meta', 'rb+')" in srci and "raise FileNotFoundError" in srci, init, "open refuses a missing array", "open mode no longer refuses a missing meta file")
-    r4.require("isinstance(pickled_object, typing.Tuple) and len(pickled_object) == 3" in srci and "isinstance(self.__item_size, int)" in srci, init, "meta validated",
-               "open mode no longer validates the metadata tuple")
-    r4.require("pickle.dump((self.__item_size, self.__array_len, self.__item_num_in_one_file), meta_file)" in srci, init, "meta written at creation", "create mode no longer writes (item_size, array_len, items_per_file)")
-    r4.require("self.__file_num = math.ceil(self.__array_len / self.__item_num_in_one_file)" in srci, init, "file count", "the number of chunk files is no longer ceil(len / per_file)")
+
+# ---------------------------------------------------------------------------------------------------------------- R19.4
+def _check_files(repo, r4, ci):
+    LP = [("attr", ("param", "self"), "__local_path"), ("param", "local_path")]
+    METAS = [("binop", "Add", lp, ("const", "_meta")) for lp in LP]
+
+    def chunk_id(t):
+        """t = <local path> + f"_{X}"  ->  X"""
+        if t[0] == "binop" and t[1] == "Add" and t[2] in LP:
+            r = t[3]
+            if r[0] == "fstr" and len(r[1]) == 2 and r[1][0] == ("const", "_"):
+                return r[1][1]
+            if r[0] == "binop" and r[1] == "Add" and r[2] == ("const", "_") and r[3][0] == "call" and r[3][1] == "str" and len(r[3][2]) == 1:
+                return r[3][2][0]
+        return None
+    opens = {}
     for fi in ci.methods.values():
-        for c in ast.walk(fi.node):
-            if isinstance(c, ast.Call) and dotted(c.func) in ("open", "os.unlink", "os.remove", "os.rename", "os.replace"):
-                arg = unparse(c.args[0]) if c.args else ""
-                ok = arg in ("local_path + '_meta'", "file_path", "meta_file_path", "chunk_file_path", "self.__local_path + '_meta'")
-                r4.require(ok, fi, "file access %s" % arg, "%s touches %s, which is not one of the array's own files" % (fi.qual, arg), c)
-    rel = ci.methods.get("release")
-    srcr = unparse(rel.node)
-    r4.require("self.close()" in srcr and "meta_file_path = self.__local_path + '_meta'" in srcr and "chunk_file_path = self.__local_path + f'_{chunk_file_id}'" in srcr and
-               "for chunk_file_id in range(self.__file_num)" in srcr, rel, "release removes exactly the array's files", "release no longer closes and removes <path>_meta and <path>_<k>")
+        ft = fn_terms(repo, fi)
+        for n in ft.cfg.nodes:
+            if n.stmt is None or n.ast is None:
+                continue
+            for c in ast.walk(n.ast if n.kind == "test" else n.stmt):
+                if isinstance(c, ast.Call) and dotted(c.func) in ("open", "os.unlink", "os.remove", "os.rename", "os.replace", "os.path.exists", "shutil.rmtree", "os.rmdir", "os.mkdir") and c.args:
+                    t = ft.term(c.args[0], n.id)
+                    cid = chunk_id(t)
+                    kind = "meta" if t in METAS else ("chunk" if cid is not None else None)
+                    if kind is None:
+                        r4.fail_fn(fi, c, "file access %s" % unparse(c.args[0]), "%s touches %s, which is not one of the array's own files (<path>_meta, <path>_<k>)" % (fi.qual, unparse(c.args[0])))
+                        continue
+                    opens.setdefault((fi.name, dotted(c.func), kind), []).append((c, cid, ft, n.id))
+                    r4.ok({"function": fi.qual, "call": dotted(c.func), "file": kind})
+    gf = ci.methods.get("_get_file_by_id")
+    fid = ("param", gf.params[1])
+    got = opens.get(("_get_file_by_id", "open", "chunk"), [])
+    r4.require(bool(got) and all(cid == fid for _c, cid, _ft, _n in got), gf, "chunk file name", "_get_file_by_id opens %s; expected <local_path>_<file_id>" % [unparse(c.args[0]) for c, *_ in got])
+    modes = set()
+    for c, _cid, _ft, _n in got:
+        m = c.args[1] if len(c.args) > 1 else next((k.value for k in c.keywords if k.arg == "mode"), None)
+        if isinstance(m, ast.Constant):
+            modes.add(m.value)
+    cached = any(isinstance(st, ast.Assign) and any(isinstance(t, ast.Subscript) and unparse(t.value) == "self.__opened_files" and unparse(t.slice) == gf.params[1] for t in st.targets)
+                 for st in ast.walk(gf.node))
+    fnf = any(isinstance(h, ast.ExceptHandler) and h.type is not None and "FileNotFoundError" in unparse(h.type) for h in ast.walk(gf.node)) or \
+        any(isinstance(c, ast.Call) and dotted(c.func) == "os.path.exists" for c in ast.walk(gf.node))
+    r4.require({"rb+", "wb+"} <= modes and cached and fnf, gf, "chunk opened read/write, created on demand, cached", "_get_file_by_id no longer opens rb+ / creates wb+ / caches the handle")
+    init = ci.methods.get("__init__")
+    Fi = facts_of(init)
+    mode = entry(init.params[2])
+    exists = lambda truth: (lambda k, t: k[0] == "truth" and k[1].startswith("os.path.exists(") and k[1].endswith("'_meta')") and t == truth)  # noqa: E731
+    r4.require(bool(refusals(Fi, exists(True), ("FileExistsError",))), init, "create refuses an existing array", "create mode no longer refuses an existing meta file")
+    creates = [n for c, _cid, _ft, n in opens.get(("__init__", "open", "meta"), []) if any(
+        isinstance(m, ast.Constant) and isinstance(m.value, str) and "w" in m.value for m in list(c.args[1:2]) + [k.value for k in c.keywords if k.arg == "mode"])]
+    r4.require(bool(creates) and not unpermitted(Fi, [n for n in creates if n in Fi.ins], [exists(False)]), init, "meta created only when absent",
+               "create mode opens the meta file for writing without having established that it does not exist")
+    reads = [c for c, _cid, _ft, n in opens.get(("__init__", "open", "meta"), []) if any(
+        isinstance(m, ast.Constant) and isinstance(m.value, str) and "r" in m.value for m in list(c.args[1:2]) + [k.value for k in c.keywords if k.arg == "mode"])]
+    fnf_raise = [n for n, name, _f in Fi.raises() if name and name.split(".")[-1] == "FileNotFoundError"]
+    r4.require(bool(reads) and bool(fnf_raise), init, "open refuses a missing array", "open mode no longer refuses a missing meta file")
+    # validation of the metadata: a ValueError is raised when it is not a 3-tuple of ints
+    def shape_bad(k, t):
+        return (k[0] == "truth" and "isinstance(" in k[1] and ("Tuple" in k[1] or "tuple" in k[1]) and not t) or (k[0] == "==" and "3" in k[1:] and any(x.startswith("len(") for x in k[1:]) and not t)
 
-    # ---------------------------------------------------------------- R19.5
+    def ints_bad(k, t):
+        return k[0] == "truth" and k[1].startswith("isinstance(") and k[1].endswith(", int)") and not t
+    vraises = [alt for n, name, _f in Fi.raises() if name and name.split(".")[-1] == "ValueError" for alt in (Fi.alts(n.id) or [])]
+    r4.require(any(any(shape_bad(k, t) for k, t in alt) for alt in vraises) and any(any(ints_bad(k, t) for k, t in alt) for alt in vraises), init, "meta validated",
+               "open mode no longer validates the metadata tuple")
+    fti = fn_terms(repo, init)
+    dumped = False
+    trio = [("attr", ("param", "self"), a) for a in ("__item_size", "__array_len", "__item_num_in_one_file")]
+    for n in fti.cfg.nodes:
+        if n.stmt is None or n.ast is None:
+            continue
+        for c in ast.walk(n.ast if n.kind == "test" else n.stmt):
+            if isinstance(c, ast.Call) and dotted(c.func) == "pickle.dump" and c.args and isinstance(c.args[0], ast.Tuple) and [unparse(e) for e in c.args[0].elts] == [
+                    "self.__item_size", "self.__array_len", "self.__item_num_in_one_file"]:
+                dumped = True
+    r4.require(dumped, init, "meta written at creation", "create mode no longer writes (item_size, array_len, items_per_file)")
+    fnum = [st for st in ast.walk(init.node) if isinstance(st, (ast.Assign, ast.AnnAssign)) and unparse(st.targets[0] if isinstance(st, ast.Assign) else st.target) == "self.__file_num"]
+    okn = False
+    for st in fnum:
+        v = inline_locals(init.node, st.value)
+        t = S.canon(S.expr(v, {}))
+        AL, PER = ("attr", ("var", "self"), "__array_len"), ("attr", ("var", "self"), "__item_num_in_one_file")
+        if t in (("call", ("fn", "math.ceil"), (("op", "Div", AL, PER),), ()), ("op", "FloorDiv", ("op", "Sub", ("cat", (AL, PER)), ("const", 1)), PER),
+                 ("op", "FloorDiv", ("cat", (AL, PER, ("const", -1))), PER), ("un", "USub", ("op", "FloorDiv", ("un", "USub", AL), PER))):
+            okn = True
+    r4.require(okn, init, "file count", "the number of chunk files is no longer ceil(len / per_file)")
+    rel = ci.methods.get("release")
+    rl = opens
+    meta_rm = [x for (fn, call, kind), v in rl.items() if fn == "release" and call in ("os.unlink", "os.remove") and kind == "meta" for x in v]
+    chunk_rm = [x for (fn, call, kind), v in rl.items() if fn == "release" and call in ("os.unlink", "os.remove") and kind == "chunk" for x in v]
+    FN = ("attr", ("param", "self"), "__file_num")
+    all_chunks = bool(chunk_rm) and all(cid is not None and ((cid[0] == "rangevar" and cid[1] in ((FN,), (("const", 0), FN))) or cid[0] == "counter") for _c, cid, _ft, _n in chunk_rm)
+    closes = any(isinstance(c, ast.Call) and dotted(c.func) == "self.close" for c in ast.walk(rel.node))
+    r4.require(closes and bool(meta_rm) and all_chunks, rel, "release removes exactly the array's files", "release no longer closes and removes <path>_meta and <path>_<k> for every k < file_num")
+
+
+# ---------------------------------------------------------------------------------------------------------------- R19.5
+def _check_delete(repo, r5, ci):
+    wrap = repo.cls(PA, "SPFLBArray")
     iface = repo.cls(IF, "PersistentFixedLengthBytesArray")
     dl = iface.methods.get("__delitem__")
-    srcd = unparse(dl.node)
-    r5.require("start, stop, stride = i.indices(len(self))" in srcd.replace("(start, stop, stride)", "start, stop, stride") and "for index in range(start, stop, stride)" in srcd and srcd.count("self._set_all_zeros_by_index(index)") == 2, dl,
-               "deletion zero-fills each index", "__delitem__ no longer zero-fills every selected index")
+    ftd = fn_terms(repo, dl)
+    n_slice = n_int = 0
+    for c in _calls(dl, "self._set_all_zeros_by_index"):
+        nid = ftd.cfg.node_of_expr(c)
+        t = ftd.term(c.args[0], nid[0]) if c.args and nid else None
+        if t is not None and _slice_provenance(t):
+            n_slice += 1
+        elif t is not None and (t == ("call", "operator.index", (("param", dl.params[1]),), ()) or t == ("param", dl.params[1])):
+            n_int += 1
+        else:
+            r5.fail_fn(dl, c, "deletion index", "__delitem__ zero-fills %s, which is neither the given index nor an element of the given slice" % (unparse(c.args[0]) if c.args else None))
+    r5.require(n_slice >= 1 and n_int >= 1, dl, "deletion zero-fills each index", "__delitem__ no longer zero-fills every selected index")
     z = iface.methods.get("_set_all_zeros_by_index")
-    r5.require(unparse(z.node.body[-1]) == "self[index] = b'\\x00' * self.item_size", z, "zero-fill through __setitem__", "_set_all_zeros_by_index no longer assigns item_size zero bytes through __setitem__")
+    okz = False
+    for ps in summarize(z):
+        for st in ps.env.get("__stores__", ()):
+            if st[0] == "self" and st[1] == ("var", z.params[1]) and st[2] in (("op", "Mult", ("const", b"\x00"), ("attr", ("var", "self"), "item_size")),
+                                                                                 ("op", "Mult", ("attr", ("var", "self"), "item_size"), ("const", b"\x00")),
+                                                                                 ("call", ("fn", "bytes"), (("attr", ("var", "self"), "item_size"),), ())):
+                okz = True
+    r5.require(okz, z, "zero-fill through __setitem__", "_set_all_zeros_by_index no longer assigns item_size zero bytes through __setitem__")
     cl = iface.methods.get("clear")
-    r5.require("for i in range(len(self))" in unparse(cl.node) and "del self[i]" in unparse(cl.node), cl, "clear covers range(len(self))", "clear no longer deletes every index")
+    okcl = False
+    for lp in [x for x in ast.walk(cl.node) if isinstance(x, ast.For)]:
+        if unparse(lp.iter) in ("range(len(self))", "range(0, len(self))") and isinstance(lp.target, ast.Name) and any(
+                isinstance(d, ast.Delete) and [unparse(t) for t in d.targets] == ["self[%s]" % lp.target.id] for d in ast.walk(lp)):
+            okcl = True
+    if any(isinstance(d, ast.Delete) and [unparse(t) for t in d.targets] == ["self[:]"] for d in ast.walk(cl.node)):
+        okcl = True
+    r5.require(okcl, cl, "clear covers range(len(self))", "clear no longer deletes every index")
     it = iface.methods.get("__iter__")
-    r5.require("for index in range(len(self))" in unparse(it.node) and "yield self[index]" in unparse(it.node), it, "iteration covers range(len(self))", "__iter__ no longer yields every index")
-    # subclasses do not override clear / __delitem__ with shortcuts
+    okit = False
+    for ps in summarize(it, unroll=1):
+        ys = [c for _n, c, _f in ps.calls if c[0] == "yield"]
+        if ys and all(y[1] == ("sub", ("var", "self"), ("elem", ("call", ("fn", "range"), (("call", ("fn", "len"), (("var", "self"),), ()),), ()))) for y in ys):
+            okit = True
+    r5.require(okit, it, "iteration covers range(len(self))", "__iter__ no longer yields every index")
     for c2 in (wrap, ci):
         for nm in ("clear", "__delitem__", "_set_all_zeros_by_index"):
             if nm in c2.methods:
                 r5.fail_fn(c2.methods[nm], c2.methods[nm].node, "%s overridden in %s" % (nm, c2.name),
                            "%s.%s overrides the zero-fill deletion of the interface; deletion must go through __setitem__ of every index (an override that touches only "
                            "opened chunk files leaves data behind after a reopen)" % (c2.name, nm))
-    return rules
 
 
 # ----------------------------------------------------------------------------- self-test variants
